@@ -1,5 +1,6 @@
 import Taskpool.Props.C13
 import Taskpool.Props.C07
+import Taskpool.Inv.GoodInv
 /-! # C12 — A failing task or callback harms only itself
 
 Proved here: a worker that raises goes through exactly the same ending path as one that returns — its slot is
@@ -10,44 +11,22 @@ metamorphic monitor on the real code, not proved. -/
 namespace Taskpool
 open Pool
 
-/-- whatever the worker's outcome (`e = none`: returned, `e = some x`: raised `x`), a task that is filed as running
-ends up released and filed as ended by the same step -/
-theorem C12_failure_releases_slot {cap : Cap} (p : Pool) (t : Nat) (e : Option Err) (hg : Good cap p)
-    (hu : p.Unreleased t) (hr : t ∈ p.running) :
-    ∃ tk', (p.afterWorker t e).tasks[t]? = some tk' ∧ tk'.released = true ∧ t ∈ (p.afterWorker t e).ended ∧
-      t ∉ (p.afterWorker t e).running := by
-  obtain ⟨tk, htk, hrel⟩ := hu
-  -- both branches: log, enter wrapUp, then `_task_ending`
-  have key : ∀ (q : Pool) (tk0 : PTask), q.tasks[t]? = some tk0 → t ∈ q.running → q.running.Nodup →
-      ∃ tk', (q.taskEnding t).tasks[t]? = some tk' ∧ tk'.released = true ∧ t ∈ (q.taskEnding t).ended ∧
-        t ∉ (q.taskEnding t).running := by
-    intro q tk0 h0 hrun hnd
-    unfold taskEnding
-    simp only [h0]
-    have hm : q.moveToEnded t = some { q with running := q.running.erase t, ended := q.ended ++ [t] } := by
-      unfold moveToEnded; simp [hrun]
-    simp only [hm]
-    unfold endingTail
-    generalize hq1 : (({ q with running := q.running.erase t, ended := q.ended ++ [t] } : Pool).releasePool.modTask t
-      fun k => { k with released := true }) = q1
-    have hq1t : q1.tasks[t]? = some { tk0 with released := true } := by
-      subst hq1
-      simp only [modTask_tasks]
-      rw [releasePool_tasks]
-      exact getElem?_modify_eq _ _ _ _ h0
-    have hreg := releasePool_regs ({ q with running := q.running.erase t, ended := q.ended ++ [t] } : Pool)
-    have hq1e : q1.ended = q.ended ++ [t] := by subst hq1; exact hreg.2.2.1
-    have hq1r : q1.running = q.running.erase t := by subst hq1; exact hreg.1
-    have tm := tame_endCallback q1 t tk0
-    obtain ⟨tk', a', b', _⟩ := tm.back t _ hq1t
-    refine ⟨tk', a', by rw [b'], by rw [tm.fin, hq1e]; simp, ?_⟩
-    rw [tm.run, hq1r]
-    exact fun hmem => (List.Nodup.mem_erase_iff hnd).mp hmem |>.1 rfl
-  have hnd : p.running.Nodup := (List.nodup_append.mp (List.nodup_append.mp hg.reg.nd).1).1
-  unfold afterWorker
-  split
-  · exact key _ _ (by simp only [modTask_tasks, logEv_tasks]; exact getElem?_modify_eq _ _ _ _ htk) hr hnd
-  · exact key _ _ (by simp only [modTask_tasks, logEv_tasks]; exact getElem?_modify_eq _ _ _ _ htk) hr hnd
+/-- whatever the worker's outcome (`e = none`: returned, `e = some x`: raised `x`), the step that ends the worker
+goes through the same `_task_ending` path and preserves every invariant: slot conservation (the slot is handed back
+exactly once), the registries, the groups and the callback life cycle -/
+theorem C12_failure_same_invariants {cap : Cap} (p : Pool) (t : Nat) (e : Option Err) (hg : Good cap p) (s : SoftP)
+    (hc : p.Cur t s) (hph : s.phase = .inWorker) : Good cap (p.afterWorker t e) :=
+  good_afterWorker p t e hg s hc (inWork_of hc hg (Or.inr hph))
+
+/-- **every task that finishes has handed back its slot**, in every pool after every history (any sizes, failures,
+cancellations, `pool_size` assignments), as long as nothing was `lost` (no `KeyError` in a wrapper, DESIGN §4.3) -/
+theorem C12_finished_released (base : Nat) (h : History) (i : Nat) (c : Cfg) (p : Pool)
+    (hc : ((World.init base).run h).cfgs[i]? = some c) (hp : ((World.init base).run h).pools[i]? = some p)
+    (hl : p.lost = false) (t : Nat) (tk : PTask) (ht : p.tasks[t]? = some tk) (hf : tk.phase = .finished) :
+    tk.released = true := by
+  have := (lifeAll base h i c p hc hp) t tk ht
+  rw [hl] at this
+  exact (this.fin hf rfl).1
 
 /-- a collecting `flush()` / `gather_and_close()` (`return_exceptions=True`) cannot raise: its gathers complete only
 normally (restated from C13) -/
